@@ -66,6 +66,8 @@ def props_of(m):
         ps.add('C15')
     if base in ('check_filters', 'check_filter', 'filter_offload_diff', 'filter_false_negative'):
         ps.add('C10')
+    if base == 'filter_false_negative':
+        ps.add('C04')      # a written key that a query no longer finds after lifecycle / maintenance calls
     if base.startswith('blob_bytes'):
         ps.add('C07')
     if base in ('worker_alive', 'close'):
@@ -154,7 +156,7 @@ class StoreEngine:
         'C01': 'read,contains,ret.,panic,error',
         'C02': 'all_wm,read_all,read_with,ret.,counts.records,panic,error',
         'C03': 'read,contains,all_wm,read_with,counts.next_blob_id,counts.records,counts.blobs,counts.detailed,counts.active,counts.corrupted,ret.,panic,error',
-        'C04': 'read,contains,all_wm,read_with,ret.,panic,error',
+        'C04': 'read,contains,all_wm,read_with,filter_false_negative,ret.,panic,error',
         'C07': 'blob_bytes,ret.,panic,error',
         'C10': 'check_filter,filter,ret.,panic,error',
         'C12': 'ret.,panic,error',
